@@ -373,6 +373,8 @@ template <typename EdgeLabel>
 void LabeledUndirectedGraph<EdgeLabel>::addEdge(
     VertexIndex vertex1, VertexIndex vertex2, const EdgeLabel &label, bool force
 ) {
+    assertVertexInRange(vertex1);
+    assertVertexInRange(vertex2);
     if (force || !hasEdge(vertex1, vertex2)) {
         if (vertex1 != vertex2)
             Directed::adjacencyList[vertex1].push_back(vertex2);
